@@ -218,6 +218,50 @@ var reSelVal = regexp.MustCompile(`S:"(-?[0-9]+)"`)
 func c09SQLOracle(init int) func(w *fsx.World) []fsx.Violation { return c09SQLOracleOn("t", init) }
 
 // c09SQLOracleOn judges the counter table tbl (file tbl.csv).
+// c09SeqInsertOracle: every program is one statement that appends the successor of the greatest n it reads from t.
+// Serialised, k committed programs leave the rows init, init+1, ..., init+k.
+func c09SeqInsertOracle(init int) func(w *fsx.World) []fsx.Violation {
+	return func(w *fsx.World) []fsx.Violation {
+		if !w.Final {
+			return nil
+		}
+		var out []fsx.Violation
+		committed := 0
+		for _, p := range w.Procs {
+			for _, l := range p.ObsWithPrefix("SQL ") {
+				if strings.HasSuffix(l, "-> ok") {
+					committed++
+				} else if res := l[strings.LastIndex(l, "-> ")+3:]; !strings.HasPrefix(res, "ERR lock-timeout") {
+					out = append(out, fsx.Violation{Sig: "unexpected-error-or-panic", Msg: p.Name + ": " + l})
+				}
+			}
+		}
+		content := w.Files["t.csv"]
+		lines := strings.Split(strings.TrimSpace(content), "\n")
+		var vals []int
+		for _, l := range lines[1:] {
+			k, _ := strconv.Atoi(strings.TrimSpace(l))
+			vals = append(vals, k)
+		}
+		sort.Ints(vals)
+		okSeq := len(vals) == committed+1
+		for i, v := range vals {
+			if v != init+i {
+				okSeq = false
+			}
+		}
+		if !okSeq {
+			out = append(out, fsx.Violation{Sig: "I2:lost-update", Msg: fmt.Sprintf("t.csv ends as %q: %d programs committed an INSERT of MAX(n) + 1 starting from %d, the values must be %d..%d", content, committed, init, init, init+committed)})
+		}
+		for name := range w.Files {
+			if strings.HasPrefix(name, ".") {
+				out = append(out, fsx.Violation{Sig: "leftover-control-file-after-clean-end", Msg: "all processes ended yet " + name + " remains"})
+			}
+		}
+		return out
+	}
+}
+
 func c09SQLOracleOn(tbl string, init int) func(w *fsx.World) []fsx.Violation {
 	return func(w *fsx.World) []fsx.Violation {
 		var out []fsx.Violation
@@ -429,6 +473,7 @@ type c09Scenario struct {
 	counter      string // sql scenarios: the counter table the oracle judges (default t)
 	heldFrom     int    // sql scenarios: from its heldFrom-th statement on, until it starts to commit, process 1 holds the counter table for update (0: not judged)
 	noCounter    bool   // the final value is not judged (the first mention of the table is a plain read: the documented reload applies)
+	seqInsert    bool   // sql scenarios: every program appends MAX(n)+1 - the final table holds init, init+1, ... without a gap or a repeat
 	revToo       bool   // the statement ranges over Go maps (multi-table UPDATE/DELETE): explored once per map order, ascending and descending
 	mapOrder     string // "" ascending, "rev" descending (set by c09Scenarios for the copy of a revToo scenario)
 }
@@ -506,6 +551,18 @@ func c09ScenarioList() []c09Scenario {
 		{name: "sql held: SELFU t, table function and inline reads of t.csv|INC t", tables: one, sql: true, heldFrom: 2, noCounter: true, thoroughOnly: true, bodies: func(d string) []func(*fsx.Proc) {
 			return sqlBodies(d, "SELECT n FROM t FOR UPDATE; SELECT COUNT(*) FROM CSV(',', `t.csv`) x; SELECT COUNT(*) FROM CSV_INLINE(',', `"+d+"/t.csv`); SELECT 1;", "UPDATE t SET n = n + 1;")
 		}},
+		// statements that run other program text (SOURCE, EXECUTE, a prepared statement) are part of the transaction
+		{name: "sql held: SELFU t, SOURCE, EXECUTE, prepared|INC t", tables: one, sql: true, heldFrom: 2, noCounter: true, bodies: func(d string) []func(*fsx.Proc) {
+			os.WriteFile(filepath.Join(d, "src.sql"), []byte("SELECT 1;\n"), 0644)
+			return sqlBodies(d, "SELECT n FROM t FOR UPDATE; SOURCE `"+d+"/src.sql`; EXECUTE 'SELECT 2'; PREPARE st FROM 'SELECT 3'; EXECUTE st; SELECT 4;", "UPDATE t SET n = n + 1;")
+		}},
+		// a data-changing statement whose own query reads the table it changes: read and write are one critical section
+		{name: "sql INSERT t SELECT MAX(t)+1|same", tables: one, sql: true, seqInsert: true, bodies: func(d string) []func(*fsx.Proc) {
+			return sqlBodies(d, "INSERT INTO t SELECT MAX(n) + 1 FROM t;", "INSERT INTO t SELECT MAX(n) + 1 FROM t;")
+		}},
+		{name: "sql INSERT t VALUES (subquery MAX(t)+1)|same", tables: one, sql: true, seqInsert: true, thoroughOnly: true, bodies: func(d string) []func(*fsx.Proc) {
+			return sqlBodies(d, "INSERT INTO t VALUES ((SELECT MAX(n) + 1 FROM t));", "INSERT INTO t SELECT MAX(n) + 1 FROM t;")
+		}},
 		{name: "sql held: INSERT t|INC t", tables: one, sql: true, heldFrom: 2, noCounter: true, thoroughOnly: true, bodies: func(d string) []func(*fsx.Proc) {
 			return sqlBodies(d, "INSERT INTO t VALUES (100); SELECT 1;", "UPDATE t SET n = n + 1;")
 		}},
@@ -559,8 +616,14 @@ func c09RunScenario(c *core.Ctx, s c09Scenario, deadline time.Time, replay []str
 			tbl = s.counter
 			sc.Check = c09SQLOracleOn(s.counter, s.tables[s.counter+".csv"])
 		}
+		if s.seqInsert {
+			sc.Check = c09SeqInsertOracle(s.tables["t.csv"])
+		}
 		if s.heldFrom > 0 {
 			final, from, noCounter := sc.Check, s.heldFrom, s.noCounter
+			// the number of statement points of process 1's whole program, learnt from the first execution (all defaults:
+			// process 1 runs to its end before process 2 starts); the transaction may end only after the last of them
+			lastStmt := 0
 			sc.Check = func(w *fsx.World) []fsx.Violation {
 				var out []fsx.Violation
 				if w.Final {
@@ -578,17 +641,20 @@ func c09RunScenario(c *core.Ctx, s c09Scenario, deadline time.Time, replay []str
 					if strings.HasPrefix(l, "stmt") {
 						stmts++
 					}
-					if strings.HasPrefix(l, "rename") || strings.HasPrefix(l, "truncate") {
+					if stmts >= lastStmt && lastStmt > 0 && (strings.HasPrefix(l, "rename") || strings.HasPrefix(l, "truncate")) {
 						committing = true
 					}
 					// a transaction that changed nothing ends by releasing the table: its first close of one of the
-					// table's files is the end of the hold
-					if stmts >= from && (strings.HasPrefix(l, "close") || strings.HasPrefix(l, "remove")) && strings.Contains(l, tbl+".csv") {
+					// table's files after its last statement has begun is the end of the hold
+					if stmts >= from && stmts >= lastStmt && lastStmt > 0 && (strings.HasPrefix(l, "close") || strings.HasPrefix(l, "remove")) && strings.Contains(l, tbl+".csv") {
 						committing = true
 					}
 				}
+				if p1.Done() && stmts > lastStmt {
+					lastStmt = stmts
+				}
 				l2 := p2.Log()
-				if stmts >= from && !committing && !p1.Done() && len(l2) > 0 && strings.HasPrefix(l2[len(l2)-1], "rename") && strings.Contains(l2[len(l2)-1], tbl+".csv") {
+				if stmts >= from && lastStmt > 0 && !committing && !p1.Done() && len(l2) > 0 && strings.HasPrefix(l2[len(l2)-1], "rename") && strings.Contains(l2[len(l2)-1], tbl+".csv") {
 					out = append(out, fsx.Violation{Sig: "I1:written-while-held-for-update", Msg: fmt.Sprintf("%s installs new contents of %s.csv while %s, whose SELECT ... FOR UPDATE on that table has completed, has not ended its transaction", p2.Name, tbl, p1.Name)})
 				}
 				return out
